@@ -309,12 +309,18 @@ CanonExpr(e) ==
     [] e.k = "ParenExpr" -> [e EXCEPT !.Expr = CanonExpr(e.Expr)]
     [] OTHER -> e
 PlainRef(f) == f.Expr.k = "VarRef" /\ ~Has(f, "Alias")
-TiePair(x, y) == PlainRef(x) /\ PlainRef(y) /\ x.Expr.Val = y.Expr.Val
-                 /\ TypeOf(x.Expr) = "tag" /\ TypeOf(y.Expr) # "tag"
-\* a tag column directly before the field column of the same name: swap them
-TieFix(fs) == [i \in DOMAIN fs |-> IF i < Len(fs) /\ TiePair(fs[i], fs[i + 1]) THEN fs[i + 1]
-                                   ELSE IF i > 1 /\ TiePair(fs[i - 1], fs[i]) THEN fs[i - 1]
-                                   ELSE fs[i]]
+\* a run of plain columns of the SAME name (a wildcard's field and tag column, perhaps next to the same name written
+\* out): the columns that are not tags first, then the tags, each group in its order
+SameCol(x, y) == PlainRef(x) /\ PlainRef(y) /\ x.Expr.Val = y.Expr.Val
+RECURSIVE RunLo(_, _), RunHi(_, _)
+RunLo(fs, i) == IF i > 1 /\ SameCol(fs[i - 1], fs[i]) THEN RunLo(fs, i - 1) ELSE i
+RunHi(fs, i) == IF i < Len(fs) /\ SameCol(fs[i], fs[i + 1]) THEN RunHi(fs, i + 1) ELSE i
+TieFix(fs) == [i \in DOMAIN fs |->
+                 IF ~PlainRef(fs[i]) THEN fs[i]
+                 ELSE LET lo == RunLo(fs, i)
+                          run == SubSeq(fs, lo, RunHi(fs, i))
+                          ord == SelectSeq(run, LAMBDA f : TypeOf(f.Expr) # "tag") \o SelectSeq(run, LAMBDA f : TypeOf(f.Expr) = "tag")
+                      IN ord[i - lo + 1]]
 RECURSIVE CanonStmt(_)
 CanonStmt(s) ==
   LET fs == TieFix([i \in DOMAIN FieldsOf(s) |-> [FieldsOf(s)[i] EXCEPT !.Expr = CanonExpr(@)]])
